@@ -11,6 +11,8 @@ import (
 	"encoding/json"
 	"fmt"
 	"math/big"
+	"os"
+	"path/filepath"
 	"regexp"
 	"sort"
 	"strconv"
@@ -922,8 +924,96 @@ func run(in Input, id uint64) (term string, obs observed) {
 	}
 	term = "(let o1 := " + out1 + " in " + Record("c_id", N(id), "c_doc", doc, "c_fbfee", t.bytesN(fee[:]), "c_fbgas", N(in.FallbackGas),
 		"c_vals", List(vals), "c_ok1", Bool(obs.OK1), "c_parsed", parsed, "c_out1", "o1", "c_shown", shownRef,
-		"c_marshalled", marshalled, "c_ok2", Bool(obs.OK2), "c_out2", out2Ref) + ")"
+		"c_marshalled", marshalled, "c_ok2", Bool(obs.OK2), "c_out2", out2Ref, "c_v1_per_value", Bool(v1PerValue())) + ")"
 	return term, obs
+}
+
+// v1PerValue: known_findings.json registers C10-v1-entry-not-fieldwise (any status), so legacy
+// lookups are judged by the per-value reading of docs/execlayer.md (Check.C10.P_b).
+var v1PerValueOnce struct {
+	done bool
+	val  bool
+}
+
+func v1PerValue() bool {
+	if v1PerValueOnce.done {
+		return v1PerValueOnce.val
+	}
+	v1PerValueOnce.done = true
+	root := filepath.Join("..", "..")
+	if c := os.Getenv("VERIF_CORPUS"); c != "" {
+		root = filepath.Dir(c)
+	}
+	data, err := os.ReadFile(filepath.Join(root, "known_findings.json"))
+	if err != nil {
+		return false
+	}
+	var kf struct {
+		Findings []struct {
+			ID string `json:"id"`
+		} `json:"findings"`
+	}
+	if json.Unmarshal(data, &kf) != nil {
+		return false
+	}
+	for _, f := range kf.Findings {
+		if f.ID == "C10-v1-entry-not-fieldwise" {
+			v1PerValueOnce.val = true
+		}
+	}
+	return v1PerValueOnce.val
+}
+
+// v1Fieldwise: a legacy document in which the own entry of one of the validators is null, or lacks
+// a gas limit or a builder that default_config has: the inputs on which the per-value reading of
+// docs/execlayer.md and the code's whole-entry selection can differ (known finding
+// C10-v1-entry-not-fieldwise; computed from the input only).
+func v1Fieldwise(in Input) bool {
+	dec := json.NewDecoder(strings.NewReader(in.Doc))
+	dec.UseNumber()
+	var doc map[string]any
+	if err := dec.Decode(&doc); err != nil {
+		return false
+	}
+	if v, ok := doc["version"]; ok && v != nil {
+		if n, isNum := v.(json.Number); !isNum || string(n) != "0" {
+			return false
+		}
+	}
+	def, _ := doc["default_config"].(map[string]any)
+	pcs, _ := doc["proposer_config"].(map[string]any)
+	if def == nil || pcs == nil {
+		return false
+	}
+	hasGas := func(m map[string]any) bool {
+		s, _ := m["gas_limit"].(string)
+		n, err := strconv.ParseUint(s, 10, 64)
+		return err == nil && n != 0
+	}
+	for _, v := range in.Validators {
+		want, ok := hexBytes(v.Pubkey, 48)
+		if !ok {
+			continue
+		}
+		for k, e := range pcs {
+			if b, ok := hexBytes(k, 48); !ok || !bytes.Equal(b, want) {
+				continue
+			}
+			entry, isObj := e.(map[string]any)
+			if e == nil || !isObj {
+				return true
+			}
+			if !hasGas(entry) && hasGas(def) {
+				return true
+			}
+			if _, has := entry["builder"].(map[string]any); !has {
+				if _, defHas := def["builder"].(map[string]any); defHas {
+					return true
+				}
+			}
+		}
+	}
+	return false
 }
 
 func TestC10(t *testing.T) {
@@ -941,6 +1031,10 @@ func TestC10(t *testing.T) {
 		ins = append(ins, gen(rng.Fork(), col))
 	}
 	for _, in := range ins {
+		if v1Fieldwise(in) {
+			in.Tags = append(in.Tags, "v1-fieldwise")
+			col.Count("v1:own-entry-incomplete")
+		}
 		id := col.NextID()
 		term, obs := run(in, id)
 		if obs.OK1 {
